@@ -365,8 +365,8 @@ def undescribed(ctx, case):
     ctx.check('alive from its creation on', getattr(created, 'alive', None) is True)
     cid, d = parse.message('[3.500] wl_display@1.delete_id(9)')
     mgr.message(cid, d)
-    ctx.check('delete_id destroys exactly that object (dead from then on, lifespan 2.5 s, annotated on the delete_id message)',
-              getattr(created, 'alive', None) is False and d.destroyed_obj is created and created.lifespan() == 2.5)
+    ctx.check('delete_id destroys exactly that object (dead from then on, lifespan 2.5 ms - log stamps are milliseconds -, annotated on the delete_id message)',
+              getattr(created, 'alive', None) is False and d.destroyed_obj is created and created.lifespan() is not None and abs(created.lifespan() - 0.0025) < 1e-9)
     protocol.interfaces.clear()
 
 
